@@ -83,6 +83,11 @@ fn main() {
                 println!("{} {:?}", p.id, subs);
             }
         }
+        "emit-randomness" => {
+            for l in ovf::props::c12::emit_randomness() {
+                println!("{}", l);
+            }
+        }
         "check" => {
             if args.len() < 4 {
                 usage();
